@@ -69,7 +69,7 @@ Definition c08_offer (local : N) (routers : list addr) (before after : list (lis
             && forallb (fun s => (st_of s =? 2)%N) tb
             && negb (can_split len idx))
       || list_eqb (list_eqb slot_eqb) before after)
-  (* room or a worse node in the target bucket: the newcomer is admitted, with its standing *)
+  (* room or a worse node in the target bucket: the newcomer is accepted, with its standing *)
   && (negb (admissible && negb present && existsb (fun s => (st_of s <? ns)%N) tb)
       || existsb (fun s => same_h s new && (st_of s =? ns)%N) A).
 
